@@ -28,6 +28,7 @@ LEVEL_NOTE = ("Assumes tokens differ only in (pygments kind, value) as far as pr
 
 DEPTH_CAP = 3
 KINDS = ["kw", "id", "p", "op", "lit", "txt"]
+SEVEN = {"Python", "JavaScript", "TypeScript", "Java", "C", "C++", "C#"}
 
 
 def probe_tokens():
@@ -63,6 +64,8 @@ def capture():
         finally:
             scope_utils.find_all, scope_utils.starts_with = real_fa, real_sw
         if not any(k == "header" for k, _ in got):
+            if name not in SEVEN:
+                continue  # a language registered beyond the property's seven that has no header pattern (yet): nothing to explore
             raise core.HarnessError(f"seam scope_utils.find_all never hit for {name}")
         out[name] = got
     return out
@@ -443,14 +446,14 @@ def run(ctx: core.Ctx):
     bad = validate_depth_cap(ctx.agg)
     if bad:
         raise core.HarnessError(f"depth abstraction invalid for Balanced: {bad[:3]}")
-    ctx.bounds = {"depth_cap": DEPTH_CAP, "token_kinds": KINDS, "languages": sorted(Languages.by_name)}
+    ctx.bounds = {"depth_cap": DEPTH_CAP, "token_kinds": KINDS, "languages": sorted(capture())}
     ctx.rule = ("per language, every expression passed to find_all/starts_with by extract_headers (captured from the working tree); states = "
                 "distinct reachable configurations (DFA state index, snapshot of each predicate copy, Balanced depth capped at "
                 f"{DEPTH_CAP}); transitions = (configuration, token class) probes executed on a fresh real Pattern by history replay; "
                 "token classes = 6 pygments kinds x (every string a predicate compares with + '(' + ')' + one other value). "
                 "A case = one expression; non-trivial = more than one reachable configuration. Complete (fixpoint) in both tiers.")
     ctx.assumptions = ["predicates observe only token kind and value", f"Balanced behaves identically for depth >= {DEPTH_CAP} (validated at start)"]
-    blocks = sorted(Languages.by_name)
+    blocks = sorted(capture())
     max_live, max_len = ctx.pick((3, 12), (3, 15))
     ctx.bounds["find_all_level"] = {"max_live_attempts": max_live, "max_history_length": max_len}
     for lang, exprs in capture().items():
